@@ -2,6 +2,7 @@
     Statements only; proofs in [Proofs/PStateProofs.v]. *)
 From Coq Require Import NArith List Bool.
 From PLV Require Import Base.PyStr Tok.PState Tok.Tokenizer Proofs.PStateProofs.
+From PLV Require Import Tok.Delta Proofs.DeltaProofs.
 Import ListNotations.
 
 (** For every base field assignment and EVERY chain of [sub_context] calls
@@ -47,3 +48,142 @@ Print Assumptions C17_caches_fresh.
 Print Assumptions C17_derived_is_fresh.
 Print Assumptions C17_same_tokens.
 Print Assumptions C17_same_read_all.
+
+(** * The public parsing-state DELTA objects ([Tok/Delta.v], proofs in
+    [Proofs/DeltaProofs.v]): [ParsingStateDelta(set_attributes=...)],
+    [ParsingStateDeltaEnterMathMode] / [LeaveMathMode] through the default walker
+    event handler, [ParsingStateDeltaChained] (with [None] entries), nested at will. *)
+
+(** [ParsingStateDeltaChained(l)] is the left fold of its entries. *)
+Theorem C17_delta_chain_is_fold : forall l ps,
+  apply_delta ps (DChain l) = fold_left apply_delta l ps.
+Proof. exact delta_chain_is_fold. Qed.
+
+(** A chain of a concatenation acts as the second chain after the first ... *)
+Theorem C17_delta_chain_app : forall l1 l2 ps,
+  apply_delta ps (DChain (l1 ++ l2)) = apply_delta (apply_delta ps (DChain l1)) (DChain l2).
+Proof. exact delta_chain_app. Qed.
+
+(** ... a chain nested in a chain acts as the chain with its entries spliced in ... *)
+Theorem C17_delta_chain_nested : forall l1 m l2 ps,
+  apply_delta ps (DChain (l1 ++ DChain m :: l2)) = apply_delta ps (DChain (l1 ++ m ++ l2)).
+Proof. exact delta_chain_nested. Qed.
+
+(** ... a one-entry chain acts as its entry, [None] is the identity and may be
+    dropped from a chain ... *)
+Theorem C17_delta_chain_singleton : forall d ps, apply_delta ps (DChain [d]) = apply_delta ps d.
+Proof. exact delta_chain_singleton. Qed.
+
+Theorem C17_delta_none_identity : forall ps, apply_delta ps DNone = ps.
+Proof. exact delta_none_identity. Qed.
+
+Theorem C17_delta_chain_skip_none : forall l1 l2 ps,
+  apply_delta ps (DChain (l1 ++ DNone :: l2)) = apply_delta ps (DChain (l1 ++ l2)).
+Proof. exact delta_chain_skip_none. Qed.
+
+(** ... and a delta of ANY nesting acts as the flat chain of its atomic deltas
+    (no chain, no [None] among them), in order. *)
+Theorem C17_delta_flatten : forall d ps,
+  Forall atomic (flatten d)
+  /\ apply_delta ps d = fold_left apply_delta (flatten d) ps
+  /\ apply_delta ps d = apply_delta ps (DChain (flatten d)).
+Proof. exact delta_flatten. Qed.
+
+(** Every delta is a chain of [sub_context] calls ([steps d]: one keyword set per
+    atomic delta that has one). *)
+Theorem C17_delta_is_sub_context_chain : forall d ps,
+  apply_delta ps d = fold_left sub_context (steps d) ps.
+Proof. exact delta_is_sub_context_chain. Qed.
+
+(** The invariant "cached tables = tables computed from the fields, fields
+    normalised" survives every delta ... *)
+Theorem C17_delta_preserves_inv : forall d ps, Inv ps -> Inv (apply_delta ps d).
+Proof. exact delta_preserves_inv. Qed.
+
+(** ... so the C17 claim holds for delta objects: the state obtained from a
+    directly constructed state through any chain of [sub_context] calls followed
+    by any delta (of any nesting; by [DChain] and [DSet] this covers every
+    interleaving of deltas and [sub_context] calls) is, as a value, the state
+    constructed directly with its own field values ... *)
+Theorem C17_delta_state_is_fresh : forall f0 chain d,
+  let r := apply_delta (fold_left sub_context chain (fresh f0)) d in
+  r = fresh (ps_f r).
+Proof. exact delta_state_is_fresh. Qed.
+
+Theorem C17_delta_sequence_is_fresh : forall f0 ds,
+  let r := fold_left apply_delta ds (fresh f0) in
+  r = fresh (ps_f r).
+Proof. exact delta_sequence_is_fresh. Qed.
+
+Theorem C17_delta_caches_fresh : forall f0 chain d,
+  let r := apply_delta (fold_left sub_context chain (fresh f0)) d in
+  ps_c r = compute_caches (ps_f r).
+Proof. exact delta_caches_fresh. Qed.
+
+(** ... and tokenizes every input identically. *)
+Theorem C17_delta_same_tokens : forall f0 chain d s pos,
+  let r := apply_delta (fold_left sub_context chain (fresh f0)) d in
+  impl_peek r s pos = impl_peek (fresh (ps_f r)) s pos.
+Proof. exact delta_same_tokens. Qed.
+
+Theorem C17_delta_same_read_all : forall f0 chain d s tol,
+  let r := apply_delta (fold_left sub_context chain (fresh f0)) d in
+  read_all r s tol = read_all (fresh (ps_f r)) s tol.
+Proof. exact delta_same_read_all. Qed.
+
+(** The two walker events set exactly the two math fields (all other fields
+    are those of the state the delta is applied to). *)
+Theorem C17_delta_enter_math_fields : forall ps md,
+  ps_f (apply_delta ps (DEnterMath md)) = set_math (ps_f ps) true md.
+Proof. exact enter_math_fields. Qed.
+
+Theorem C17_delta_leave_math_fields : forall ps,
+  ps_f (apply_delta ps DLeaveMath) = set_math (ps_f ps) false None.
+Proof. exact leave_math_fields. Qed.
+
+(** [apply_delta] is a function of the VALUE of the state it is applied to (the
+    state cannot be altered: immutability is by construction in the model, as for
+    [sub_context]; on the real objects it is checked by the correspondence).  The
+    analogue of [sub_context_keeps_unlisted_fields]: a delta none of whose steps
+    names the group delimiters keeps them. *)
+Theorem C17_delta_keeps_unlisted_fields : forall d ps,
+  names_group d = false ->
+  f_group_delims (ps_f (apply_delta ps d)) = f_group_delims (ps_f ps).
+Proof. exact delta_keeps_unlisted_fields. Qed.
+
+(** Non-vacuity: a nested chain that enters math mode with [$], switches
+    comments off (inside an inner chain with a [None] entry) and leaves math mode
+    again: inside, [$] is expected as the closing delimiter; afterwards the state
+    is the directly constructed default state with comments off. *)
+Definition C17_delta_example_inner : delta :=
+  DChain [DEnterMath (Some [36%N]); DChain [DNone; DSet [UEnComments false]; DChain []]].
+Definition C17_delta_example : delta := DChain [C17_delta_example_inner; DNone; DLeaveMath].
+
+Example C17_delta_nonvacuous :
+  let mid := apply_delta (fresh default_fields) C17_delta_example_inner in
+  let r := apply_delta (fresh default_fields) C17_delta_example in
+  c_expect_close (ps_c mid) = Some ([36%N], TkMathInline)
+  /\ f_in_math (ps_f mid) = true /\ f_en_comments (ps_f mid) = false
+  /\ r = fresh (apply_update default_fields (UEnComments false))
+  /\ r <> fresh default_fields
+  /\ flatten C17_delta_example = [DEnterMath (Some [36%N]); DSet [UEnComments false]; DLeaveMath]
+  /\ names_group C17_delta_example = false.
+Proof. vm_compute. repeat split; try reflexivity. discriminate. Qed.
+
+Print Assumptions C17_delta_chain_is_fold.
+Print Assumptions C17_delta_chain_app.
+Print Assumptions C17_delta_chain_nested.
+Print Assumptions C17_delta_chain_singleton.
+Print Assumptions C17_delta_none_identity.
+Print Assumptions C17_delta_chain_skip_none.
+Print Assumptions C17_delta_flatten.
+Print Assumptions C17_delta_is_sub_context_chain.
+Print Assumptions C17_delta_preserves_inv.
+Print Assumptions C17_delta_state_is_fresh.
+Print Assumptions C17_delta_sequence_is_fresh.
+Print Assumptions C17_delta_caches_fresh.
+Print Assumptions C17_delta_same_tokens.
+Print Assumptions C17_delta_same_read_all.
+Print Assumptions C17_delta_enter_math_fields.
+Print Assumptions C17_delta_leave_math_fields.
+Print Assumptions C17_delta_keeps_unlisted_fields.
